@@ -23,13 +23,36 @@ func (p Persist) Load(ctx context.Context, name string) ([]byte, error) {
 
 // Store persists the given bytes in a file of the given name, if it
 // doesn't exist already.
+//
+// The bytes are written to a temporary file in the same directory which is
+// then renamed to the final name, so a write that is cut short by a crash
+// or an I/O error never leaves a partial node under its name (where it
+// would be loaded as-is and never be repaired, since existing names are
+// skipped).
 func (p Persist) Store(ctx context.Context, name string, bytes []byte) error {
 	path := filepath.Join(p.basepath, name)
 	_, err := os.Stat(path)
-	if os.IsNotExist(err) {
-		return os.WriteFile(filepath.Join(p.basepath, name), bytes, 0644)
+	if !os.IsNotExist(err) {
+		return nil
 	}
-	return nil
+	tmp, err := os.CreateTemp(p.basepath, ".tmp-*")
+	if err != nil {
+		return err
+	}
+	_, err = tmp.Write(bytes)
+	if cerr := tmp.Close(); err == nil {
+		err = cerr
+	}
+	if err == nil {
+		err = os.Chmod(tmp.Name(), 0644)
+	}
+	if err == nil {
+		err = os.Rename(tmp.Name(), path)
+	}
+	if err != nil {
+		os.Remove(tmp.Name())
+	}
+	return err
 }
 
 // NewPersistForPath returns a Persist that loads and stores nodes as
